@@ -175,6 +175,13 @@ def make_segments(rows, case):
             lg = math.copysign(float(case["threshold"]), lg if lg else 1.0)  # exactly on the threshold: must be reported (>=)
         recs.append({"chromosome": s[0]["chromosome"], "start": s[0]["start"], "end": s[-1]["end"], "gene": "-",
                      "log2": lg, "probes": len(s), "weight": w})
+    # one segment table in four covers a single chromosome of a multi-chromosome bin table (a .cns filtered to one
+    # chromosome): genes elsewhere belong to no segment (seeded change C16m: a single-chromosome fast path that fired
+    # although the other table held further chromosomes)
+    chroms = list(dict.fromkeys(r["chromosome"] for r in recs))
+    if len(chroms) > 1 and case["seed"] % 4 == 3:
+        keep = chroms[(case["seed"] // 4) % len(chroms)]
+        recs = [r for r in recs if r["chromosome"] == keep]
     return CopyNumArray(pd.DataFrame(recs), {"sample_id": "s"}), recs
 
 
